@@ -40,3 +40,17 @@ runtime_md = dict(
     bounded=dict(bound='4 files x 4 lines x 4 functions x messages of length <= 3 (thorough: 5) over 4 symbols x 2 uses', form='b'),
     dropped=[], trusted=['g++ / libstdc++ / fmt execute the real frontend and backend'], min_obligations=1, timeout=900)
 UNITS += [runtime_md]
+rotating_size = dict(
+    name='RS.size_files', primary='C14', props={'C14'}, kind='L', funcs=[], enforce=None,
+    desc='the real RotatingFileSink with size rotation on real files (write_log, _size_rotation, _rotate_files incl. the rename chain, names and deletion) against the property: whole statements, in order, nothing lost unless overwritten, within the size and count bounds',
+    native=dict(cpp='rotating_size.cpp', file='include/quill/sinks/RotatingSink.h', function='RotatingSink::{write_log,_size_rotation,_rotate_files,_get_filename,_rename_file,_remove_file}', defs_quick=['LEN=5'], defs_thorough=['LEN=7']),
+    bounded=dict(bound='sequences of <= 5 (thorough: 7) statements over 3 sizes x 3 backup limits x overwrite on/off', form='b'),
+    dropped=[], trusted=['g++ / libstdc++ / the file system execute the real sink'], min_obligations=1, timeout=1200)
+UNITS += [rotating_size]
+rotating_time = dict(
+    name='RS.time_files', primary='C15', props={'C15'}, kind='L', funcs=[], enforce=None,
+    desc='the real RotatingFileSink with time rotation (GMT) on real files against the property: two statements share a file exactly when no scheduled rotation point lies between them (first point from _calculate_initial_rotation_tp with the real libc, then every period, also after many skipped periods)',
+    native=dict(cpp='rotating_time.cpp', file='include/quill/sinks/RotatingSink.h', function='RotatingSink::{RotatingSink,write_log,_time_rotation,_calculate_initial_rotation_tp,_calculate_rotation_tp,_rotate_files}', defs_quick=['LEN=4'], defs_thorough=['LEN=6']),
+    bounded=dict(bound='4 start instants x 4 schedules x increasing sequences of <= 4 (thorough: 6) instants from an 8-point grid', form='b'),
+    dropped=[], trusted=['g++ / libstdc++ / libc (gmtime_r, timegm) / the file system execute the real sink'], min_obligations=1, timeout=1200)
+UNITS += [rotating_time]
